@@ -491,6 +491,12 @@ func (e *Engine) runPath(h *ssa.Function, hr *HarnessResult, sol *Solver, prefix
 					reason = x.reason
 				case inconclusiveEnd:
 					reason = "inconclusive"
+					// obligations raised BEFORE the point the executor could not get past are still decided: a
+					// violation in front of an unsupported construct must not be lost with the path
+					func() {
+						defer func() { recover() }()
+						p.flushObligations()
+					}()
 					hr.mu.Lock()
 					if len(hr.Inconclusive) < 200 {
 						hr.Inconclusive = append(hr.Inconclusive, x.why)
